@@ -328,7 +328,27 @@ func c15Guards(r *core.Run, p *core.Program) {
 		}
 		return false, false
 	}})
-	guardOb(r, p, rule, "convert-bits/excess-padding", "a whole unused input group (padding of 5 bits or more) is refused", an.GuardSpec{Fn: cb, Fail: nilRes, Match: an.MatchCmpValues(token.GEQ, nil, []string{"param#2"})})
+	guardOb(r, p, rule, "convert-bits/excess-padding", "a whole unused input group (padding of 5 bits or more) is refused", an.GuardSpec{Fn: cb, Fail: nilRes, Match: func(iff *ssa.If) (bool, bool) {
+		// "bits >= inbits" in either orientation: one operand is the parameter itself
+		x, y, rel, ok := an.CondCmp(iff.Cond)
+		if !ok || len(cb.Params) < 3 {
+			return false, false
+		}
+		switch {
+		case c17StripConv(y) == ssa.Value(cb.Params[2]):
+		case c17StripConv(x) == ssa.Value(cb.Params[2]):
+			rel = map[token.Token]token.Token{token.LSS: token.GTR, token.GTR: token.LSS, token.LEQ: token.GEQ, token.GEQ: token.LEQ, token.EQL: token.EQL, token.NEQ: token.NEQ}[rel]
+		default:
+			return false, false
+		}
+		switch rel {
+		case token.GEQ:
+			return true, true
+		case token.LSS:
+			return true, false
+		}
+		return false, false
+	}})
 	// Base58Check
 	na := p.Func("lib/btc.NewAddrFromString")
 	e1 := an.FailKind{Result: 1, Kind: "nonnil"}
